@@ -22,6 +22,10 @@ Inductive c11_case :=
    [tree]: the boolean tree it was built from, if it is one;  [nary]: for a directly built n-ary And/Or node,
    (is_and, operand truth values) *)
 | CExpr (tree : option btree) (nary : option (bool * list tv)) (pe : pexpr) (ctx : vctx) (obs : outcome value)
+(* as CExpr for a root function call, plus the separately observed RUNTIME values of its argument expressions
+   (the arguments may be calls themselves: a NULL produced at run time by a function whose declared type
+   excludes NULL must still propagate) *)
+| CCall (pe : pexpr) (ctx : vctx) (arg_obs : list (outcome value)) (obs : outcome value)
 (* Filter node: predicate, outer frames, input rows, the separately observed predicate value per row,
    the rows the node produced, whether it ended with an error (Err class) / panic *)
 | CFilter (pe : pexpr) (outer : vctx) (rows : list (list value)) (row_obs : list (outcome value))
@@ -47,6 +51,7 @@ Definition tie_outcome (m obs : outcome value) : bool :=
 Definition c11_tie (c : c11_case) : bool :=
   match c with
   | CExpr _ _ pe ctx obs => tie_outcome (peval ctx pe) obs
+  | CCall pe ctx _ obs => tie_outcome (peval ctx pe) obs
   | CFilter pe outer rows _ out_rows out_res =>
       let '(m_rows, m_res) := filter_run (materialize pe) outer rows in
       match m_res with
@@ -79,18 +84,25 @@ Definition leaf_value (ctx : vctx) (e : pexpr) : option value :=
 Definition is_leaf (e : pexpr) : bool := match e with PConst _ _ | PVar _ _ _ => true | _ => false end.
 
 Local Open Scope string_scope.
+(* the clause on RUNTIME argument values: [vs] = the values the arguments evaluated to (None: that argument
+   failed, then nothing is required) *)
+Definition null_clause (d : fdesc) (vs : list (option value)) (obs : outcome value) : bool :=
+  let all_ok := forallb (fun o => match o with Some _ => true | None => false end) vs in
+  let has_null := existsb (fun o => match o with Some VNull => true | _ => false end) vs in
+  if negb all_ok then true else
+  (if fd_strict d && has_null then outcome_eqb obs (Ok VNull) else true) &&
+  (* comparisons propagate NULL whatever the table says about their Strict flag *)
+  (if existsb (name_is d) ["="; "!="; "<"; "<="; ">"; ">="] && has_null then outcome_eqb obs (Ok VNull) else true) &&
+  (if name_is d "is null" || name_is d "is not null"
+   then match obs with Ok (VBool _) => true | _ => false end else true).
+
 Definition c11_spec_null (c : c11_case) : bool :=
   match c with
   | CExpr _ _ (PCall _ d args) ctx obs =>
-      if forallb is_leaf args then
-        let vs := map (leaf_value ctx) args in
-        let has_null := existsb (fun o => match o with Some VNull => true | _ => false end) vs in
-        (if fd_strict d && has_null then outcome_eqb obs (Ok VNull) else true) &&
-        (* comparisons propagate NULL whatever the table says about their Strict flag *)
-        (if existsb (name_is d) ["="; "!="; "<"; "<="; ">"; ">="] && has_null then outcome_eqb obs (Ok VNull) else true) &&
-        (if name_is d "is null" || name_is d "is not null"
-         then match obs with Ok (VBool _) => true | _ => false end else true)
-      else true
+      if forallb is_leaf args then null_clause d (map (leaf_value ctx) args) obs else true
+  | CCall (PCall _ d args) _ arg_obs obs =>
+      Nat.eqb (length args) (length arg_obs) &&
+      null_clause d (map (fun o => match o with Ok v => Some v | _ => None end) arg_obs) obs
   | _ => true
   end.
 Local Close Scope string_scope.
